@@ -85,7 +85,9 @@ class Check:
         shutil.rmtree(self.work, ignore_errors=True)
         os.makedirs(self.work)
         os.makedirs(os.path.join(self.outdir, "replays", pid), exist_ok=True)
-        os.makedirs(os.path.join(self.outdir, "evidence"), exist_ok=True)
+        # evidence/<id>.json for the listed properties; the extra checks (X01..) write to evidence/extra/
+        self.evdir = os.path.join(self.outdir, "evidence") if pid.startswith("C") else os.path.join(self.outdir, "evidence", "extra")
+        os.makedirs(self.evdir, exist_ok=True)
         self.t0 = time.time()
         self.states = 0
         self.transitions = 0
@@ -328,7 +330,7 @@ class Check:
         evd = {"property_id": self.pid, "tier": self.tier, "seed": self.seed, "level": level, "coverage": cov,
                "assumptions": self.assumptions, "wall_s": round(wall, 1), "violations": len(self.violations),
                "notes": self.notes}
-        json.dump(evd, open(os.path.join(self.outdir, "evidence", self.pid + ".json"), "w"), indent=1, default=str)
+        json.dump(evd, open(os.path.join(self.evdir, self.pid + ".json"), "w"), indent=1, default=str)
         for k in self.known_hit:
             print("KNOWN-FINDING: property=%s %s — %s" % (self.pid, k["key"], k["what"]))
         for v in self.violations:
